@@ -52,6 +52,30 @@ def main():
     os.makedirs(core.BUILD, exist_ok=True)
     ctx = core.Ctx(pid, a.tier, seed, replay=a.replay)
     ctx.selftest = a.selftest
+    if not a.replay and os.environ.get("VERIF_NOFORK") != "1":
+        # safety net: the library under test contains native code; if it corrupts memory and kills the interpreter
+        # the check must still end with a verdict, not with a dead checker
+        pidc = os.fork()
+        if pidc == 0:
+            os.environ["VERIF_NOFORK"] = "1"
+            rc = _run(a, pid, ctx)
+            sys.stdout.flush()
+            os._exit(rc)
+        _, status = os.waitpid(pidc, 0)
+        if os.WIFSIGNALED(status):
+            sig = os.WTERMSIG(status)
+            ctx.violation({"where": "process", "kind": "interpreter-crash", "signal": sig},
+                          "the checker process was killed by signal %d while exercising the library "
+                          "(native memory corruption in the code under test?)" % sig)
+            ctx.states = ctx.states or 1
+            ctx.transitions = ctx.transitions or 1
+            ctx.note("explanation", "run aborted by a native crash; counts are incomplete")
+            return ctx.finish()
+        return os.WEXITSTATUS(status)
+    return _run(a, pid, ctx)
+
+
+def _run(a, pid, ctx):
     try:
         mod = importlib.import_module("harness.props.%s" % pid.lower())
         if a.replay:
